@@ -189,6 +189,27 @@ class Folder:
                 return a in b
             if isinstance(op, ast.NotIn):
                 return a not in b
+        if isinstance(node, ast.Compare) and len(node.ops) > 1:
+            left = node.left
+            for op, right in zip(node.ops, node.comparators):
+                if not f(ast.Compare(left=left, ops=[op], comparators=[right])):
+                    return False
+                left = right
+            return True
+        if isinstance(node, ast.BoolOp):
+            if isinstance(node.op, ast.And):
+                v = True
+                for x in node.values:
+                    v = f(x)
+                    if not v:
+                        return v
+                return v
+            v = False
+            for x in node.values:
+                v = f(x)
+                if v:
+                    return v
+            return v
         if isinstance(node, ast.IfExp):
             return f(node.body) if f(node.test) else f(node.orelse)
         if isinstance(node, ast.Call):
@@ -294,6 +315,19 @@ class Folder:
                 base = f(fn.value)
                 if isinstance(base, bytes):
                     return base.hex()
+            if fn.attr in ("isdigit", "isalpha", "upper", "lower", "strip") and not args:
+                base = f(fn.value)
+                if isinstance(base, str):
+                    return getattr(base, fn.attr)()
+            if fn.attr in ("startswith", "endswith") and len(args) == 1:
+                base = f(fn.value)
+                a0 = f(args[0])
+                if isinstance(base, (str, bytes)):
+                    return getattr(base, fn.attr)(a0)
+            if fn.attr == "get" and 1 <= len(args) <= 2:
+                base = f(fn.value)
+                if isinstance(base, dict):
+                    return base.get(f(args[0]), f(args[1]) if len(args) == 2 else None)
             if fn.attr == "bit_length" and not args:
                 base = f(fn.value)
                 if isinstance(base, int):
